@@ -31,8 +31,8 @@ THEOREMS = [
     "ESV.C11.cache_fresh", "ESV.C11.query_always_answers", "ESV.C11.call_independent_of_memo",
     "ESV.C11.tidy_prefix_then_fresh", "ESV.C11.tidy_prefix_then_fresh_queries", "ESV.C11.outputs_of_call_after_tidy_prefix",
     "ESV.C11.sequential_no_keyerror", "ESV.C11.cache_stale_counterexample", "ESV.C11.call_depends_on_memo_counterexample",
-    "ESV.C11.print_indent_only", "ESV.C11.compile_reset", "ESV.C11.compile_reset_after_history",
-    "ESV.C11.compile_order_not_reset_counterexample",
+    "ESV.C11.print_indent_only", "ESV.C11.compile_reset", "ESV.C11.compile_ctor", "ESV.C11.compile_reset_after_history",
+    "ESV.C11.compile_order_reset_pinned",
 ]
 SESSION = "harness.impl_cache:run_session"
 
@@ -355,7 +355,7 @@ def diagnose(calls: list[dict], ref: dict) -> tuple[str, str, dict]:
     kind_l = last["kind"]
     if kind_l == "convert_again":
         return "decompiler_object_convert_twice", "convert() called a second time on the same decompiler object gives " + \
-            (f"{got['summary'].get('error')}" if "error" in got["summary"] else "another result") + " (convert() replaces self._routine_ops by its label-resolved form)", detail
+            (f"{got['summary'].get('error')}" if "error" in got["summary"] else "another result") + " than the first call / a new decompiler object", detail
     if kind_l in ("decompile", "compile_decompile"):
         if not differs(calls[:-1] + [{"kind": "scrub"}, last], ref["digest"]):
             prev_abort = [c for c, row in zip(calls[:-1], x["results"][:-1]) if c["kind"] == "decompile" and (row["summary"].get("fallback") or "error" in row["summary"])]
